@@ -350,7 +350,7 @@ pub fn gen_op(rng: &mut Rng, cfg: &Cfg, kind: usize, class: Class) -> Op {
     let panicking = class == Class::Panicking;
     let wide = class == Class::Wide;
     let kmax = match kind {
-        0 | 1 | 2 | 19 => 17,
+        0 | 1 | 2 | 19 | 22 => 17,
         10 => 9,
         4..=9 => 10,
         _ => 3,
@@ -734,6 +734,11 @@ pub fn gen_op(rng: &mut Rng, cfg: &Cfg, kind: usize, class: Class) -> Op {
             let reent = cfg.f_reent && rng.pct(40);
             Op::Fmt { a, var, w: width, p, pauses, err_at, reent }
         }
+        // Display into a sink that calls set_default itself
+        22 => {
+            let s = rng.range(k as i64, 18) as u8;
+            Op::FmtSet { a: (w, s), p: s - k, m: rng.below(8) as u8 }
+        }
         // any other public API call (must not touch the mode)
         21 => {
             let which = rng.below(crate::ops::MISC_NAMES.len() as u64) as u8;
@@ -793,6 +798,14 @@ fn op_step(rng: &mut Rng, cfg: &Cfg, tid: u32, op: Op, die: bool) -> (Step, u32)
     }
     let action = if die { Action::Die(op) } else { Action::Op(op) };
     (Step { tid, action, yields }, parked)
+}
+
+/// The mode a step leaves its thread in, if it changes it from inside a sink.
+fn fmtset_mode(st: &Step) -> Option<u8> {
+    match &st.action {
+        Action::Op(Op::FmtSet { m, .. }) | Action::Die(Op::FmtSet { m, .. }) => Some(*m % 8),
+        _ => None,
+    }
 }
 
 fn pick_kind(rng: &mut Rng, cfg: &Cfg) -> usize {
@@ -977,6 +990,9 @@ pub fn gen_plan(seed: u64, idx: u64, tier_thorough: bool) -> Generated {
                         let op = gen_op(&mut rng, &cfg, kind, Class::Witness);
                         let (st, parked) = op_step(&mut rng, &cfg, t2, op, false);
                         live[s2].parked = parked;
+                        if let Some(m) = fmtset_mode(&st) {
+                            live[s2].mode = m;
+                        }
                         steps.push(st);
                     }
                     continue;
@@ -1033,13 +1049,16 @@ pub fn gen_plan(seed: u64, idx: u64, tier_thorough: bool) -> Generated {
                     op
                 };
                 if let Some((pct, k)) = cfg.burst {
-                    if !Op::is_control_kind(op.kind()) && rng.pct(pct) {
+                    if !Op::is_control_kind(op.kind()) && op.kind() != 22 && rng.pct(pct) {
                         steps.push(Step::new(tid, Action::Burst { op, k }));
                         continue;
                     }
                 }
                 let (st, parked) = op_step(&mut rng, &cfg, tid, op, false);
                 live[slot].parked = parked;
+                if let Some(m) = fmtset_mode(&st) {
+                    live[slot].mode = m;
+                }
                 steps.push(st);
                 continue;
             }
@@ -1065,6 +1084,9 @@ pub fn gen_plan(seed: u64, idx: u64, tier_thorough: bool) -> Generated {
                     let cs = live.len() - 1;
                     let (st, parked) = op_step(&mut rng, &cfg, child, op, false);
                     live[cs].parked = parked;
+                    if let Some(m) = fmtset_mode(&st) {
+                        live[cs].mode = m;
+                    }
                     steps.push(st);
                 }
                 continue;
